@@ -5,7 +5,7 @@
    barriers, a flood that uses up the whole width behind a barrier followed by a sync reader and a barrier). *)
 From Coq Require Import ZArith Bool List.
 From Verif Require Import Word Gen_consts Gen_dqstate Suspend_proofs Lane_iface.
-From Verif Require Import DqFields CLane CLane_inv CLane_main.
+From Verif Require Import DqFields Gen_lanesites CLane CLaneJudge CLane_inv CLane_main.
 Import ListNotations.
 Local Open Scope Z_scope.
 
@@ -91,3 +91,30 @@ Example C04_protocol_nonvacuous :
   (exists s, reach 4 s /\ in_barrier_callout (pcs s 5) = true /\ started s = [2; 1; 0] /\ finished s = [1; 0] /\
              holders s = [] /\ f_ib (dec (st s)) = 1).
 Proof. exact protocol_nonvacuous. Qed.
+
+(* ---- tie of the model to the source ---- *)
+(* (a) the accesses to dq_state at the model's program points are the atomic sites the translator reads from the source,
+   function by function, inlined callees included (a removed or added access breaks this) *)
+Theorem C04_model_sites_match :
+  model_sites_try_reserve_sync_width = f_dispatch_queue_try_reserve_sync_width_sites /\
+  model_sites_try_acquire_async = f_dispatch_queue_try_acquire_async_sites /\
+  model_sites_reserve_sync_width = Gen_lanesites.f_dispatch_queue_reserve_sync_width_sites /\
+  model_sites_try_upgrade_full_width = f_dispatch_queue_try_upgrade_full_width_sites /\
+  model_sites_non_barrier_complete = non_barrier_complete_loop_sites /\
+  model_sites_non_barrier_complete = firstn 2 (dq_sites Gen_lanesites.f_dispatch_lane_non_barrier_complete_sites) /\
+  model_sites_class_barrier_complete = class_barrier_complete_loop_sites /\
+  model_sites_class_barrier_complete = dq_sites Gen_lanesites.f_dispatch_lane_class_barrier_complete_sites /\
+  model_sites_drain_barrier_waiter = firstn 3 (dq_sites Gen_lanesites.f_dispatch_lane_drain_barrier_waiter_sites) /\
+  model_sites_drain_non_barriers = firstn 11 (dq_sites Gen_lanesites.f_dispatch_lane_drain_non_barriers_sites) /\
+  model_sites_concurrent_drain = dq_sites Gen_lanesites.f_dispatch_lane_concurrent_drain_sites /\
+  model_sites_concurrent_push_head = firstn 2 (dq_sites Gen_lanesites.f_dispatch_lane_concurrent_push_sites) /\
+  model_sites_push_waiter_head = firstn 3 (dq_sites Gen_lanesites.f_dispatch_lane_push_waiter_sites).
+Proof. exact model_sites_match. Qed.
+Print Assumptions C04_model_sites_match.
+
+(* (b) the judges the trace check evaluates on the recorded value chain of dq_state accept every reachable state: the
+   word-level projection of the width accounting, and the word seen by a barrier owner *)
+Theorem C04_trace_judges_sound : forall W s, 2 <= W <= 4094 -> reach W s ->
+  word_ok W (st s) = true /\ (forall t, lockh s = Some t -> bmode s = true -> owner_ok (st s) t = true).
+Proof. exact trace_judges_sound. Qed.
+Print Assumptions C04_trace_judges_sound.
